@@ -151,6 +151,13 @@ def check_relations(acc: Acc, fam, tname, payload: bytes, d: dict, only=None, ho
     if only is not None and not (only & (FORMULAS[fam] | ES_SETTINGS_FORMULAS)):
         return fails
     # ---- formulas ------------------------------------------------------------------------------------------
+    derived_none = [n for n in sorted(FORMULAS[fam]) if n in d and d[n] is None]
+    for n in derived_none:
+        # a derived value is a function of raw values of the same response: it cannot be 'undecodable' on its own
+        bad("derived-none|%s" % n, "%s is reported as None although it is computed from the raw values of the same response" % n)
+    if derived_none:
+        d = {k: v for k, v in d.items() if k not in derived_none}
+
     def has(*ids):
         return all(i in d for i in ids)
 
